@@ -80,8 +80,13 @@ def ev(patterns: List[List[Dict[str, Any]]], own: Sequence[str] = (), alt: Seque
     return c
 
 
-def bv(patterns: List[List[Dict[str, Any]]]) -> Dict[str, Any]:
-    return {"kind": "BV", "patterns": patterns}
+def bv(patterns: List[List[Dict[str, Any]]], own: Sequence[str] = (), alt: Sequence[str] = ()) -> Dict[str, Any]:
+    c: Dict[str, Any] = {"kind": "BV", "patterns": patterns}
+    if own:
+        c["own"] = list(own)
+    if alt:
+        c["alt"] = list(alt)
+    return c
 
 
 P3 = [mp("A", "1"), mp("A", "2"), mp("B", "1")]
@@ -150,6 +155,13 @@ def families(quick: bool) -> List[Family]:
         base_pool = [bv(s) for s in shapes(PB, 1, 2)]
     base_pool += [bv([[mp("A", "1", phys=True)]]), bv([[mp("A", "2", phys=True), mp("B", "1", phys=False)]])]
     fams.append(Family("base", base_pool, 2, "base variants, 0..1 pattern of 1..2 parameters, USE-PHYSICAL-ADDRESSING absent/false/true"))
+    # base variants WITHOUT a pattern (and with one) whose equally named services differ from those of the other candidates:
+    # a candidate without patterns never matches and none of its services is ever asked
+    PBS = [mp("S", "1"), mp("S", "2"), mp("A", "1")]
+    bshapes = shapes(PBS, 1, 2)  # no pattern, or one pattern of 1..2 parameters
+    fams.append(Family("base-alt", [bv(s) for s in bshapes] + [bv(s, alt=["S"]) for s in bshapes] + [bv(s, own=["A"]) for s in bshapes], 2,
+                       "base variants with 0..1 pattern over {(S,'1'),(S,'2'),(A,'1')}, each also with an alternative definition of S (same "
+                       "request, other response layout) and with its own definition of A (other request)"))
     # matching parameters that point into the negative response
     PN = [mp("A", str(ref.NRC), tgt="nrc"), mp("A", "1"), mp("B", str(ref.NRC), tgt="nrc")]
     fams.append(Family("neg-target", [ev(s) for s in shapes(PN, 1, 2)] + [ev([[a], [b]]) for a in PN for b in PN], 2,
